@@ -95,8 +95,12 @@ class ScopeGen:
                     out.append("with %s;" % name)
                 else:
                     out.append("with lib;")
-            else:
+            elif r < 0.93 or not self.allow_lambda:
                 out.append("assert true;")
+            else:
+                # a further (curried) lambda head in the middle of the wrapper chain
+                forms = [n for n in NAMES if rng.random() < 0.25] + ["pkgs"]
+                out.append("{ %s }:" % ", ".join(forms))
         call = ""
         if self.allow_call and rng.random() < 0.12:
             call = rng.choice(["f ", "lib.mk "])
